@@ -39,6 +39,10 @@ func BuildSchemaValidationV31(schema *base.Schema, validationString string, fiel
 		case "gt":
 			if specType == "integer" || specType == "number" {
 				val := swagtool.ParseNumber(ruleValue)
+				if val == nil {
+					log.Printf("Validation rule '%s' needs a numeric value, got '%s'", ruleName, ruleValue)
+					continue
+				}
 				schema.ExclusiveMinimum = &base.DynamicValue[bool, float64]{
 					B: *val,
 					N: 1,
@@ -56,6 +60,10 @@ func BuildSchemaValidationV31(schema *base.Schema, validationString string, fiel
 		case "lt":
 			if specType == "integer" || specType == "number" {
 				val := swagtool.ParseNumber(ruleValue)
+				if val == nil {
+					log.Printf("Validation rule '%s' needs a numeric value, got '%s'", ruleName, ruleValue)
+					continue
+				}
 				schema.ExclusiveMaximum = &base.DynamicValue[bool, float64]{
 					B: *val,
 					N: 1,
